@@ -35,7 +35,7 @@ TRUSTED = [
     "that the Jacobian formulas are the group law is Proofs/C01/JacRefine.lean (T1); the ladder theorems take it as "
     "the named hypothesis JacRel",
 ]
-ASSUMPTIONS = ["Nat.Prime p, Nat.Prime n for the catalogued curves other than secp256k1 (proved there)", "EndoLaw (GLV endomorphism law) for the secp256k1 route theorems", "libsecp256k1 is compared, not verified"]
+ASSUMPTIONS = ["Nat.Prime p, Nat.Prime n for the catalogued curves other than secp256k1 (proved there)", "EndoLaw only for points outside <G> (proved on <G> for secp256k1)", "libsecp256k1 is compared, not verified"]
 
 
 # ------------------------------------------------------------------ deterministic blinds
